@@ -12,6 +12,18 @@
 /*@unit {'name':'c17_shift_axes', 'props':['C17'], 'entry':'h_axes', 'kind':'bounded', 'unwind':2, 'backend':'cadical', 'timeout':900,
   'bound':'current shift and free position are multiples of 1/2 with magnitude <= 32 (all sums and halves are then exact in single precision); every axis 0..3',
   'claims':'ShiftCollider::resolve, conversion of the free position found on axis i into the shift: axis 0 / 1 replace the x / y component and keep the other; on the sum diagonal x + y equals the free position and x - y is unchanged; on the difference diagonal x - y equals the free position and x + y is unchanged'}@*/
+/*@unit {'name':'c17_shift_limits_a0', 'props':['C17'], 'entry':'h_limits', 'kind':'bounded', 'unwind':5, 'backend':'cadical', 'timeout':1200, 'defines':['LIMITS','AXIS=0'],
+  'bound':'limit rectangle, current offset, current shift and the chosen position are multiples of 1/2 (position of the parity the axis produces) with magnitude <= 4, where single precision is exact; the target glyph already inside its limit; axis 0; right-to-left (no x mirroring)',
+  'claims':'clause 1 end to end for one fixing step: ShiftCollider::initSlot gives the interval set of axis i the bounds [mn,mx] such that ANY position p in [mn,mx], turned into a shift by ShiftCollider::resolve (tbase subtraction and axis conversion, both extracted), keeps the shift inside the limit rectangle minus the current offset, i.e. the accumulated collision offset inside the limit rectangle'}@*/
+/*@unit {'name':'c17_shift_limits_a1', 'props':['C17'], 'entry':'h_limits', 'kind':'bounded', 'unwind':5, 'backend':'cadical', 'timeout':1200, 'defines':['LIMITS','AXIS=1'],
+  'bound':'limit rectangle, current offset, current shift and the chosen position are multiples of 1/2 (position of the parity the axis produces) with magnitude <= 4, where single precision is exact; the target glyph already inside its limit; axis 1; right-to-left (no x mirroring)',
+  'claims':'clause 1 end to end for one fixing step: ShiftCollider::initSlot gives the interval set of axis i the bounds [mn,mx] such that ANY position p in [mn,mx], turned into a shift by ShiftCollider::resolve (tbase subtraction and axis conversion, both extracted), keeps the shift inside the limit rectangle minus the current offset, i.e. the accumulated collision offset inside the limit rectangle'}@*/
+/*@unit {'name':'c17_shift_limits_a2', 'props':['C17'], 'entry':'h_limits', 'kind':'bounded', 'unwind':5, 'backend':'cadical', 'timeout':1200, 'defines':['LIMITS','AXIS=2'],
+  'bound':'limit rectangle, current offset, current shift and the chosen position are multiples of 1/2 (position of the parity the axis produces) with magnitude <= 4, where single precision is exact; the target glyph already inside its limit; axis 2; right-to-left (no x mirroring)',
+  'claims':'clause 1 end to end for one fixing step: ShiftCollider::initSlot gives the interval set of axis i the bounds [mn,mx] such that ANY position p in [mn,mx], turned into a shift by ShiftCollider::resolve (tbase subtraction and axis conversion, both extracted), keeps the shift inside the limit rectangle minus the current offset, i.e. the accumulated collision offset inside the limit rectangle'}@*/
+/*@unit {'name':'c17_shift_limits_a3', 'props':['C17'], 'entry':'h_limits', 'kind':'bounded', 'unwind':5, 'backend':'cadical', 'timeout':1200, 'defines':['LIMITS','AXIS=3'],
+  'bound':'limit rectangle, current offset, current shift and the chosen position are multiples of 1/2 (position of the parity the axis produces) with magnitude <= 4, where single precision is exact; the target glyph already inside its limit; axis 3; right-to-left (no x mirroring)',
+  'claims':'clause 1 end to end for one fixing step: ShiftCollider::initSlot gives the interval set of axis i the bounds [mn,mx] such that ANY position p in [mn,mx], turned into a shift by ShiftCollider::resolve (tbase subtraction and axis conversion, both extracted), keeps the shift inside the limit rectangle minus the current offset, i.e. the accumulated collision offset inside the limit rectangle'}@*/
 typedef struct Position { float x, y; } Position;
 typedef struct Rect { Position bl, tr; } Rect;
 typedef struct Segment Segment; typedef struct Slot Slot; typedef struct json json;
@@ -73,6 +85,55 @@ void h_axes(void)
     if (axis == 1) __CPROVER_assert(t.x == sx && t.y == bp, "axis y: the shift takes the free position in y and keeps x");
     if (axis == 2) __CPROVER_assert(t.x + t.y == bp && t.x - t.y == sx - sy, "sum diagonal: x + y is the free position, x - y is unchanged");
     if (axis == 3) __CPROVER_assert(t.x - t.y == bp && t.x + t.y == sx + sy, "difference diagonal: x - y is the free position, x + y is unchanged");
+    CANARY();
+}
+#endif
+
+#ifdef LIMITS
+typedef struct ShiftCollider { Rect _limit; Position _currShift, _currOffset; float _len[4]; } ShiftCollider;
+typedef struct BBoxS { float xi, yi, xa, ya; } BBox; typedef struct SlantBoxS { float si, di, sa, da; } SlantBox;
+static float g_mn[4], g_mx[4];
+static void Zones_initialise_rec(int i, float mn, float mx) { g_mn[i] = mn; g_mx[i] = mx; }          /* Zones::initialise: stores [xmin,xmax] as the bounds of the set (unit c17_initialise) */
+#define ISQRT2 0.707106781f
+/* the four cases of ShiftCollider::initSlot that compute the bounds of each axis from the limit rectangle */
+/*@extract {'file':'src/Collider.cpp', 'kind':'range', 'scope': r'bool ShiftCollider::initSlot\(Segment \*seg, Slot \*aSlot, const Rect &limit, float margin, float marginWeight,',
+   'start': r'for \(i = 0; i < 4; \+\+i\)\s*\{\s*switch \(i\) \{', 'end': r'_target = aSlot;',
+   'pre':'static void ShiftCollider_initSlot_ranges(ShiftCollider *self, const Position currShift, const Position currOffset, float margin, float marginWeight, const BBox bb, const SlantBox sb)\n{\n    int i; float mx, mn; float a, shift;\n', 'post':'\n}\n',
+   'subs':[[r'_ranges\[i\]\.initialise<(?:XY|SD)>\(mn, mx, [^;]*;', 'Zones_initialise_rec(i, mn, mx);', 0], [r'\bmin\(', 'min_f(', 0]],
+   'self':['_limit','_len']}@*/
+/* tbase of ShiftCollider::resolve */
+/*@extract {'file':'src/Collider.cpp', 'kind':'range', 'scope': r'Position ShiftCollider::resolve\(GR_MAYBE_UNUSED Segment \*seg, bool &isCol, GR_MAYBE_UNUSED json \* const dbgout\)',
+   'start': r'switch \(i\) \{\s*case 0 :\s*// x direction\s*tbase', 'end': r'tbase = _currOffset\.x - _currOffset\.y;\s*break;\s*\}', 'end_inclusive': True,
+   'pre':'static float ShiftCollider_tbase(const ShiftCollider *self, int i)\n{\n    float tbase = 0;\n', 'post':'\n    return tbase;\n}\n', 'self':['_currOffset']}@*/
+/*@extract {'file':'src/Collider.cpp', 'kind':'range', 'scope': r'Position ShiftCollider::resolve\(GR_MAYBE_UNUSED Segment \*seg, bool &isCol, GR_MAYBE_UNUSED json \* const dbgout\)',
+   'start': r'switch \(i\) \{\s*case 0 : testp', 'end': r'case 3 : testp[^\n]*\n\s*\}', 'end_inclusive': True,
+   'pre':'static Position ShiftCollider_axis_to_shift(const ShiftCollider *self, int i, float bestPos)\n{\n    Position testp = mkpos(0, 0);\n', 'post':'\n    return testp;\n}\n',
+   'subs':[[r'Position\(', 'mkpos(', 0]], 'self':['_currShift']}@*/
+int nondet_int(void);
+#define H(k) (0.5f * (float)(k))
+void h_limits(void)
+{
+    ShiftCollider sc; BBox bb; SlantBox sb;
+    int blx = nondet_int(), bly = nondet_int(), trx = nondet_int(), try_ = nondet_int(), ox = nondet_int(), oy = nondet_int(), sx = nondet_int(), sy = nondet_int(), kp = nondet_int(), axis = nondet_int();
+#define R(v) ((v) >= -8 && (v) <= 8)
+    __CPROVER_assume(R(blx) && R(bly) && R(trx) && R(try_) && R(ox) && R(oy) && R(sx) && R(sy) && kp >= -100 && kp <= 100 && axis == AXIS);
+    /* _limit = limit - currOffset (first statement of initSlot, here given directly); the glyph's current shift lies inside it */
+    sc._limit.bl.x = H(blx); sc._limit.bl.y = H(bly); sc._limit.tr.x = H(trx); sc._limit.tr.y = H(try_);
+    Position shiftp = mkpos(H(sx), H(sy)), offp = mkpos(H(ox), H(oy));
+    __CPROVER_assume(blx <= sx && sx <= trx && bly <= sy && sy <= try_);
+    bb.xi = bb.yi = bb.xa = bb.ya = 0; sb.si = sb.di = sb.sa = sb.da = 0;
+    ShiftCollider_initSlot_ranges(&sc, shiftp, offp, 1.0f, 1.0f, bb, sb);
+    sc._currShift = shiftp; sc._currOffset = offp;
+    /* any position the interval set of this axis can offer: mn <= p <= mx (clause 3: closest() returns a point of a free interval, all inside the bounds).
+       On the diagonals p - tbase has the parity of the other diagonal coordinate of the current shift (both are sums of the same two half-integers). */
+    float p = H(kp);
+    __CPROVER_assume(g_mn[axis] <= p && p <= g_mx[axis]);
+    if (axis == 2) __CPROVER_assume(((kp - ox - oy) - (sx - sy)) % 2 == 0);
+    if (axis == 3) __CPROVER_assume(((kp - ox + oy) - (sx + sy)) % 2 == 0);
+    float bestPos = p - ShiftCollider_tbase(&sc, axis);
+    Position t = ShiftCollider_axis_to_shift(&sc, axis, bestPos);
+    __CPROVER_assert(sc._limit.bl.x <= t.x && t.x <= sc._limit.tr.x, "the shift keeps the accumulated x offset inside the limit rectangle");
+    __CPROVER_assert(sc._limit.bl.y <= t.y && t.y <= sc._limit.tr.y, "the shift keeps the accumulated y offset inside the limit rectangle");
     CANARY();
 }
 #endif
